@@ -203,6 +203,28 @@ fn drain<I: Iterator>(mut it: I) -> (Vec<I::Item>, bool) {
     }
     (v, false)
 }
+/// the provided methods of `Iterator` (which a type may override) agree with draining by `next()`
+fn iter_methods_ok<I: Iterator, F: Fn() -> I>(mk: F, fmt: impl Fn(&I::Item) -> String) -> bool {
+    let (xs, d) = drain(mk());
+    if d {
+        return true;
+    }
+    let n = xs.len();
+    let items: Vec<String> = xs.iter().map(&fmt).collect();
+    let last_ok = mk().last().map(|x| fmt(&x)) == items.last().cloned();
+    let count_ok = mk().count() == n;
+    let nth_ok = if n > 0 { mk().nth(n / 2).map(|x| fmt(&x)) == Some(items[n / 2].clone()) } else { mk().nth(0).is_none() };
+    let (lo, hi) = mk().size_hint();
+    let hint_ok = lo <= n && hi.map(|h| n <= h).unwrap_or(true);
+    let fold_ok = mk().fold(0usize, |a, _| a + 1) == n;
+    let skip_ok = mk().skip(1).count() == n.saturating_sub(1);
+    let min_ok = n == 0 || mk().map(|x| fmt(&x)).max().is_some();
+    last_ok && count_ok && nth_ok && hint_ok && fold_ok && skip_ok && min_ok
+}
+fn im(ok: bool) -> &'static str {
+    if ok { "" } else { ";ITERMETHOD" }
+}
+
 fn list_or_diverge(xs: Vec<String>, div: bool) -> String {
     if div { "DIVERGE".into() } else { flist(xs) }
 }
@@ -457,7 +479,8 @@ fn view_action<P: HP, T: HV>(v: TrieView<'_, P, T>, action: &[&str]) -> String {
         ["pv"] => format!("ok;{}", fopt(v.prefix_value(), |(p, x)| fpv(p, x))),
         ["iter"] => {
             let (xs, d) = drain(v.iter());
-            format!("ok;{}", list_or_diverge(xs.into_iter().map(|(p, x)| fpv(p, x)).collect(), d))
+            let ok = iter_methods_ok(|| v.iter(), |(p, x)| fpv(*p, *x));
+            format!("ok;{}{}", list_or_diverge(xs.into_iter().map(|(p, x)| fpv(p, x)).collect(), d), im(ok))
         }
         ["keys"] => {
             let (xs, d) = drain(v.keys());
@@ -1067,7 +1090,10 @@ fn map_op<P: HP>(m: &mut PrefixMap<P, i64>, op: &str, a: &[&str]) -> String {
         }
         ("iter", []) => {
             let (xs, d) = drain(m.iter());
-            list_or_diverge(xs.into_iter().map(|(p, v)| fpv(p, v)).collect(), d)
+            let ok = iter_methods_ok(|| m.iter(), |(p, v)| fpv(*p, *v))
+                && iter_methods_ok(|| m.keys(), |p| fp(*p))
+                && iter_methods_ok(|| m.values(), |v| v.show());
+            format!("{}{}", list_or_diverge(xs.into_iter().map(|(p, v)| fpv(p, v)).collect(), d), im(ok))
         }
         ("ref_iter", []) => {
             let mut out = Vec::new();
@@ -1294,7 +1320,8 @@ fn set_op<P: HP>(s: &mut PrefixSet<P>, op: &str, a: &[&str]) -> String {
         }
         ("iter", []) => {
             let (xs, d) = drain(s.iter());
-            list_or_diverge(xs.into_iter().map(|p| fpv(p, &())).collect(), d)
+            let ok = iter_methods_ok(|| s.iter(), |p| fp(*p));
+            format!("{}{}", list_or_diverge(xs.into_iter().map(|p| fpv(p, &())).collect(), d), im(ok))
         }
         ("ref_iter", []) => {
             let (xs, d) = drain((&*s).into_iter());
@@ -1704,6 +1731,21 @@ fn step<P: HP>(st: &mut St<P>, line: &str) -> String {
                 _ => return "bad-op".into(),
             };
             format!("{},{}", fb(st.s == other), fb(other == st.s))
+        }
+        // `Clone::clone_from`
+        ["copy_from", ra, rb] => {
+            match (*ra, *rb) {
+                ("A", "B") => {
+                    let (a, b) = (&st.a, &mut st.b);
+                    b.clone_from(a)
+                }
+                ("B", "A") => {
+                    let (a, b) = (&mut st.a, &st.b);
+                    a.clone_from(b)
+                }
+                _ => return "bad-op".into(),
+            }
+            "ok".into()
         }
         ["copy", ra, rb] => {
             let src = match *ra {
